@@ -63,7 +63,7 @@ def gen_scenario(batch_seed, i, tier):
         if kind == 'png':
             routes.append('png_uri')
         if kind == 'svg':
-            routes += ['svg_uri', 'svg_inline', 'svgz']
+            routes += ['svg_uri', 'svg_inline', 'svgz', 'stream_svgz']
         if cli:
             routes += ['cli', 'cli_terminal']
             if kind == 'svg':
@@ -200,6 +200,13 @@ def execute(sc):
                 sym.save(p, **skw)
                 raw = fs.files.get(p)
                 return Outcome(r, gzip.decompress(raw), files=stamp_files(before), extra=p)
+            if r == 'stream_svgz':
+                # a caller-supplied binary stream (anonymous or named) with kind='svgz': the gzipped SVG goes into the stream
+                out = io.BytesIO() if n % 2 else world.SimStream('binary', name='named-%s.bin' % tag, plan=w.plan, label='named-' + tag)
+                sym.save(out, kind=sc.get('svgz_case', 'svgz'), **skw)
+                o = Outcome(r, gzip.decompress(out.getvalue()), files=stamp_files(before))
+                o.closed_by_save = out.closed
+                return o
             if r == 'cli':
                 p = 'cli-%s.%s' % (tag, ext)
                 argv = opts.stylize(opts.make_argv(mkw) + opts.ser_argv(skw) + ['--output=' + p, content], sc.get('argv_style', 0))
@@ -324,7 +331,7 @@ def execute(sc):
     # ---------------- single symbol
     if not sc['seq']:
         # option sets the serialiser refuses: every route must refuse
-        docroutes = [o for o in outcomes if o.route in ('stream', 'path', 'path_twice', 'named_stream', 'file_handle', 'png_uri', 'svg_uri',
+        docroutes = [o for o in outcomes if o.route in ('stream', 'path', 'path_twice', 'named_stream', 'stream_svgz', 'file_handle', 'png_uri', 'svg_uri',
                                                         'svgz', 'cli', 'cli_svgz', 'nonseekable')]
         # a route "refuses" when the library raises anything but an I/O error (which exception type escapes is C14's
         # business): ValueError..., or through the CLI a non-zero status caused by a non-OSError exception / message
@@ -374,7 +381,7 @@ def execute(sc):
                     counters['documents_compared'] = counters.get('documents_compared', 0) + 1
         # exactly the named file, closed
         for o in outcomes:
-            if o.route == 'named_stream' and o.err is None and getattr(o, 'closed_by_save', False):
+            if o.route in ('named_stream', 'stream_svgz') and o.err is None and getattr(o, 'closed_by_save', False):
                 viols.append(_viol('c12.files', 'save() closed the (named) stream handed in by the caller', route=o.route))
             if o.route in ('path', 'path_twice', 'svgz', 'cli', 'cli_svgz') and o.err is None:
                 if sorted(o.files) != [o.extra]:
@@ -382,7 +389,7 @@ def execute(sc):
                 elif not fs.complete(o.extra):
                     viols.append(_viol('c12.files' if not o.faulted else 'c12.fault.complete',
                                        'route %s returned normally but %r was not closed successfully' % (o.route, o.extra), route=o.route))
-            elif o.route in ('stream', 'named_stream', 'png_uri', 'svg_uri', 'svg_inline', 'nonseekable', 'cli_terminal') and o.files:
+            elif o.route in ('stream', 'named_stream', 'stream_svgz', 'png_uri', 'svg_uri', 'svg_inline', 'nonseekable', 'cli_terminal') and o.files:
                 viols.append(_viol('c12.files', 'route %s created files %s' % (o.route, sorted(o.files)), route=o.route))
             if o.route == 'file_handle' and o.err is None and not o.still_open:
                 viols.append(_viol('c12.files', 'save() closed the stream handed in by the caller', route=o.route))
